@@ -13,6 +13,7 @@ func registerExtraIntrinsics() {
 	registerURLIntrinsics()
 	intrinsics["strconv.FormatUint"] = inFormatUint
 	registerJSIntrinsics()
+	registerRESTIntrinsics()
 }
 
 // math/big by contract.  Concrete text is evaluated natively; symbolic text is
